@@ -191,7 +191,7 @@ pub fn run(ctx: &Ctx) -> Rep {
             }
         }
     }
-    let cap = ctx.pick_hist(8, 96, 100_000) as usize;
+    let cap = ctx.pick(8, 96, 100_000) as usize;
     let ms: Vec<&[u8; 5]> = multisets.iter().filter(|_| true).collect();
     let ms_ids: Vec<usize> = (0..ms.len()).filter(|i| !ctx.smoke() || i % 97 == 0).collect();
     let hs = par_run(ctx, ms_ids.len(), mk, |st, ui| {
